@@ -32,6 +32,9 @@ var importSwap = map[string]string{
 	"sync/atomic":                         "kverif/shim/atomic",
 	"go.uber.org/atomic":                  "kverif/shim/uatomic",
 	"golang.org/x/sync/syncmap":           "kverif/shim/syncmap",
+	"golang.org/x/sync/singleflight":      "kverif/shim/singleflight",
+	"golang.org/x/sync/errgroup":          "kverif/shim/errgroup",
+	"golang.org/x/sync/semaphore":         "kverif/shim/semaphore",
 	"math/rand":                           "kverif/shim/rand",
 	"github.com/docker/distribution/uuid": "kverif/shim/uuid",
 	"github.com/andres-erbsen/clock":      "kverif/shim/clock",
@@ -43,6 +46,7 @@ var importSwap = map[string]string{
 var importName = map[string]string{
 	"os": "os", "sync": "sync", "sync/atomic": "atomic", "go.uber.org/atomic": "atomic",
 	"golang.org/x/sync/syncmap": "syncmap", "math/rand": "rand",
+	"golang.org/x/sync/singleflight": "singleflight", "golang.org/x/sync/errgroup": "errgroup", "golang.org/x/sync/semaphore": "semaphore",
 	"github.com/docker/distribution/uuid": "uuid", "github.com/andres-erbsen/clock": "clock", "net": "net",
 	"io/ioutil": "ioutil",
 }
@@ -163,9 +167,9 @@ type rewriter struct {
 	goInline  map[*ast.GoStmt][]bool
 	isSleep   map[*ast.CallExpr]bool
 	decorate  map[*ast.CallExpr][2]string // call -> (name, qualified interface type)
-	recvOf    map[ast.Expr]ast.Expr    // generated Recv/Recv2 call -> channel expr
-	sendOf    map[ast.Expr][2]ast.Expr // generated SendTo call -> (ch, v)
-	relabel   map[*ast.BlockStmt]int   // generated block whose last stmt must carry an outer label
+	recvOf    map[ast.Expr]ast.Expr       // generated Recv/Recv2 call -> channel expr
+	sendOf    map[ast.Expr][2]ast.Expr    // generated SendTo call -> (ch, v)
+	relabel   map[*ast.BlockStmt]int      // generated block whose last stmt must carry an outer label
 	err       error
 }
 
